@@ -121,8 +121,10 @@ def unforge_signature(data: bytes) -> str:
     """Decode signature from byte form.
 
     :param data: encoded signature.
-    :returns: base58 encoded signature (generic)
+    :returns: base58 encoded signature (generic, or BLsig for a 96-byte BLS signature)
     """
+    if len(data) == 96:
+        return base58_encode(data, b'BLsig').decode()
     return base58_encode(data, b'sig').decode()
 
 
